@@ -4,3 +4,4 @@ CONSTANTS
   Points = {"running", "blockedRecv", "blockedSend", "returned"}
 INVARIANTS NoSpuriousDone
 PROPERTY CancelReleases
+CHECK_DEADLOCK FALSE
